@@ -526,7 +526,86 @@ def correspondence(ctx):
         else:
             out["nontrivial"].add(("iupac", rq["mt"], rq["op"], rq["arg"]))
     bump(out, "spec_iupac_vs_table", len(reqs))
+
+    # 8. the general specification (RNA / lower case / gapped / ambiguous text) against the Python oracle ----
+    from . import c12_extra
+
+    reqs, wants = [], []
+    alpha = BASES * 4 + "-?NRYWSKMBDHVtcagUu"
+    for _ in range(200):
+        code = rng.choice(both)
+        s = "".join(rng.choice(alpha) for _ in range(rng.randint(0, 24)))
+        tbl = _oracle_table(_code_seqs()[code])
+        for impl, f in (("old", c12_extra.o_old_codon), ("new", c12_extra.o_new_codon)):
+            reqs.append(("specgen", dict(impl=impl, code=code, s=s)))
+            wants.append("".join(f(tbl, s[i : i + 3]) for i in range(0, len(s) - 2, 3)))
+    for (cmd, rq), want, mod in zip(reqs, wants, drv.batch(reqs)):
+        out["evaluations"] += 1
+        if want != mod:
+            add_failure(out, "corr", "Spec.GeneticCode.translateOld/New differs from the Python oracle", rq, want, mod, confirmed=False)
+    bump(out, "spec_general_vs_oracle", len(reqs))
+
+    # 9. collection-level model vs the real collections / alignments -------------------------------------
+    reqs, reals = [], []
+    for _ in range(ctx.budget(60, 600)):
+        code = rng.choice(both)
+        tbl = _oracle_table(_code_seqs()[code])
+        stops = [c for c, a in tbl.items() if a == "*"] or ["GCT"]
+        n = rng.choice([3, 6, 9, 12]) if rng.random() < 0.75 else rng.randint(1, 13)
+        rows = []
+        for _j in range(rng.randint(1, 3)):
+            r = _rand_seq(rng, n, rng.choice(["canon", "stops"]))
+            q = rng.random()
+            if n >= 3 and q < 0.45:
+                r = r[: n - 3] + rng.choice(stops)
+            if n >= 6 and q < 0.15:
+                r = r[: n - 6] + rng.choice(stops) + rng.choice(stops)
+            rows.append(r)
+        io, is_, ts = rng.choice(flags)
+        strict = rng.random() < 0.5
+        for impl, entry in (("old", "old.SequenceCollection"), ("new", "new.SequenceCollection")):
+            reqs.append(("coll", dict(impl=impl, op="get_translation", code=code, rows=rows, incomplete_ok=io, include_stop=is_, trim_stop=ts)))
+            reals.append(real_coll_tr(entry, code, rows, io, is_, ts))
+            for op in ("has_terminal_stop", "trim_stop_codons"):
+                reqs.append(("coll", dict(impl=impl, op=op, code=code, rows=rows, strict=strict)))
+                reals.append(_real_coll_op(entry, op, code, rows, strict))
+        for entry in ("old.ArrayAlignment", "old.Alignment"):
+            reqs.append(("coll", dict(impl="old", op="aln_trim_stop_codons", code=code, rows=rows, strict=strict, entry=entry)))
+            reals.append(_real_coll_op(entry, "trim_stop_codons", code, rows, strict))
+            reqs.append(("coll", dict(impl="old", op="has_terminal_stop", code=code, rows=rows, strict=strict, entry=entry)))
+            reals.append(_real_coll_op(entry, "has_terminal_stop", code, rows, strict))
+    for (cmd, rq), real, mod in zip(reqs, reals, drv.batch(reqs)):
+        out["evaluations"] += 1
+        bump(out, "collection_model", f"{rq.get('entry', rq['impl'] + '.SequenceCollection')}.{rq['op']}")
+        if isinstance(real, dict) and isinstance(mod, dict) and {real["err"], mod["err"]} <= {"AlphabetError", "ValueError"}:
+            real = mod  # both reject (the concrete exception class of a rejected row is not modelled at collection level)
+        if real != mod and rq["op"] == "get_translation" and rq["impl"] == "old":
+            # repaired tree: the real collection does what the row-wise SPEC says where the as-written model (double trim) does not
+            cs = _code_seqs("old_codes")[rq["code"]]
+            ws = [o_get_translation(cs, r, rq["incomplete_ok"], rq["include_stop"], rq["trim_stop"], strict_length=False) for r in rq["rows"]]
+            if (None in ws and isinstance(real, dict)) or real == ws:
+                bump(out, "impl_matches_spec_but_not_model", "old.SequenceCollection.get_translation")
+                continue
+        if real != mod:
+            add_failure(out, "corr", f"collection-level {rq['op']} differs from the model", rq, mod, real, confirmed=False)
+        elif real not in (None, [], False):
+            out["nontrivial"].add(("coll", str(sorted(rq.items()))))
+            if isinstance(real, dict):
+                bump(out, "errors", real["err"])
     return out
+
+
+def _real_coll_op(entry, op, code, rows, strict):
+    from . import c12_extra
+
+    def run():
+        o = c12_extra._mk_coll(entry, rows)
+        if op == "has_terminal_stop":
+            return bool(o.has_terminal_stop(gc=code, strict=strict))
+        d = o.trim_stop_codons(gc=code, strict=strict).to_dict()
+        return [str(d[f"s{i}"]) for i in range(len(rows))]
+
+    return _call(run)
 
 
 def _matches_spec(ep, rq, real):
@@ -753,7 +832,11 @@ def _judge_tr(ep, case, cs, seqs, wants, got):
         cls = "other"
         full = [o_translate(cs, s) for s in seqs]
         if rejected:
-            if all(g.rstrip("-") == (f[:-1] if f.endswith("*") else f) for f, g in zip(full, got)) and not ts:
+            if ts and not is_ and any(f.endswith("**") for f in full) and all(
+                g.rstrip("-") == (f[:-2] if f.endswith("**") else f[:-1] if f.endswith("*") else f) for f, g in zip(full, got)
+            ):
+                cls = "two-terminal-stops-trimmed"
+            elif all(g.rstrip("-") == (f[:-1] if f.endswith("*") else f) for f, g in zip(full, got)) and not ts:
                 cls = "terminal-stop-trimmed-although-trim_stop=False"
             elif all(g == f for f, g in zip(full, got)) and not is_:
                 cls = "stop-kept-although-include_stop=False"
